@@ -213,10 +213,75 @@ def content_cases(rng, n):
         out.append(('string', 'a{content:%s%s%s}' % (q, esc, q), s))
         out.append(('url', 'a{background:url(%s%s%s)}' % (q, esc, q), s))
         out.append(('attr', 'a[b=%s%s%s]{c:d}' % (q, esc, q), s))
+    for _ in range(n // 3):
+        # content ending in (several) backslashes, or backslashes before the closing quote
+        q = rng.choice(['"', "'"])
+        body = ''.join(rng.choice(['a', ' ', 'C:', 'x']) for _ in range(rng.randrange(0, 3)))
+        k = rng.randrange(1, 5)
+        s_ = body + '\\' * k
+        esc = body + '\\\\' * k
+        kind = rng.choice(['string', 'url', 'attr', 'import'])
+        text = {'string': 'a{content:%s%s%s;top:1px} b{c:d}', 'url': 'a{background:url(%s%s%s);top:1px} b{c:d}',
+                'attr': 'a[b=%s%s%s]{c:d} b{c:d}', 'import': '@import %s%s%s print; b{c:d}'}[kind] % (q, esc, q)
+        out.append((kind + '-trailing-backslash', text, s_))
     for _ in range(n // 4):
         nm = rng.choice(['1a', '9', '-1x', '2-b'])
         out.append(('digit-start-name', '.\\%x %s{c:d}' % (ord(nm[0]), nm[1:]) if nm[0] != '-' else '.-\\31 x{c:d}', nm))
     return out
+
+
+NS_SELECTORS = ['p|a', 'b:not(p|a)', '[p|att]', '*|a p|b', 'p|*', 'a:not(p|*) > q|c', 'b:not([p|att])', 'q|x, b:not(p|y)']
+
+
+def namespace_family(ctx, rng, n):
+    """selectors whose namespace is used in various positions (also only inside :not()): round trip by default and
+    with keepUsedNamespaceRulesOnly; deleting the @namespace rule, if accepted, must leave a sheet that still round-trips"""
+    import cssutils
+    import xml.dom
+    from harness import sem_dom as S
+    for _ in range(n):
+        sels = rng.sample(NS_SELECTORS, rng.randrange(1, 3))
+        text = '@namespace p "http://p"; @namespace q "http://q"; ' + ' '.join('%s{c:d}' % s_ for s_ in sels)
+        case = {'text': text, 'family': 'namespaces'}
+        ctx.case(text)
+        for prefs in ({}, {'keepUsedNamespaceRulesOnly': True}):
+            try:
+                dom = parse(text)
+                for k_, v_ in prefs.items():
+                    setattr(cssutils.ser.prefs, k_, v_)
+                b1 = dom.cssText
+                cssutils.ser.prefs.useDefaults()
+                s1 = [r for r in S.sem_sheet(dom) if r[0] == 'style']
+                s2 = [r for r in S.sem_sheet(parse(b1)) if r[0] == 'style']
+            except Exception as e:
+                cssutils.ser.prefs.useDefaults()
+                ctx.violation('raises-namespaces', dict(case, prefs=prefs), '%s: %s' % (type(e).__name__, e), KNOWN_PRED)
+                continue
+            if s1 != s2:
+                ctx.violation('lossy-namespaces', dict(case, prefs=prefs, serialised=b1.decode()[:600]), 'before %r\nafter  %r' % (s1, s2), KNOWN_PRED)
+        # an accepted deletion of a namespace declaration must leave a round-tripping sheet
+        dom = parse(text)
+        for how in ('mapping', 'rule'):
+            try:
+                if how == 'mapping':
+                    del dom.namespaces[rng.choice(['p', 'q'])]
+                else:
+                    dom.deleteRule(rng.randrange(2))
+            except xml.dom.DOMException:
+                continue
+            except Exception as e:
+                ctx.violation('raises-namespaces', dict(case, edit=how), '%s: %s' % (type(e).__name__, e), KNOWN_PRED)
+                continue
+            roundtrip(ctx, dom, dict(case, edits=['delete namespace via ' + how]), 'edited')
+        # a stand-alone selector keeps denoting the same names
+        for s_ in sels:
+            try:
+                sel = cssutils.css.Selector((s_.split(',')[0], {'p': 'http://p', 'q': 'http://q'}))
+                again = cssutils.css.Selector((sel.selectorText, {'p': 'http://p', 'q': 'http://q'}))
+                if S.sem_selector(sel) != S.sem_selector(again) or [i.value for i in sel.seq] != [i.value for i in again.seq]:
+                    ctx.violation('lossy-selector', dict(case, selector=s_), 'selectorText %r re-resolves differently' % sel.selectorText, KNOWN_PRED)
+            except xml.dom.DOMException:
+                pass
 
 
 def run(ctx):
@@ -261,9 +326,10 @@ def run(ctx):
         except Exception as e:
             ctx.violation('raises-parse', case, '%s: %s' % (type(e).__name__, e), KNOWN_PRED)
             continue
-        if len(dom.cssRules) != 1:
+        if len(dom.cssRules) != (2 if fam.endswith('trailing-backslash') else 1):
             continue   # not accepted as written: nothing to round-trip
         roundtrip(ctx, dom, case, 'content')
+    namespace_family(ctx, rng, 40 if quick else 1500)
     nreal = 0
     for f in sorted(glob.glob(os.path.join(core.REPO, 'sheets', '*.css')))[:(8 if quick else 200)]:
         data = open(f, 'rb').read()
